@@ -146,6 +146,8 @@ func c10One(c *C10Case, phase func(string)) C10Obs {
 				Body: io.NopCloser(strings.NewReader(q.RBody)), Options: opts}
 			var rerr error
 			guard(&o, "validate-response", func() { rerr = openapi3filter.ValidateResponse(context.Background(), rin) })
+			// the same input once more (a caller re-validating, e.g. in another error mode)
+			guard(&o, "validate-response-again", func() { _ = openapi3filter.ValidateResponse(context.Background(), rin) })
 			if rerr == nil {
 				o.RespOK++
 			}
@@ -382,7 +384,8 @@ func c10Random(r *Rng) C10Case {
 		"--b\r\nContent-Disposition: form-data; name=\"a\"\r\n\r\n1\r\n--b--\r\n",
 		"--b\r\nContent-Disposition: form-data; name=\"a\"\r\nContent-Type: application/json\r\n\r\n{\"a\":\r\n--b--\r\n",
 		"--b\r\nContent-Disposition: form-data; name=\"a\"\r\nContent-Type: text/plain\r\n\r\nx\r\n--b\r\nContent-Disposition: form-data; name=\"f\"; filename=\"f\"\r\nContent-Type: application/json\r\n\r\n[1,\r\n--b--\r\n",
-		"--b\r\nContent-Disposition: form-data; name=\"zz\"\r\nContent-Type: application/x-yaml\r\n\r\na: [\r\n--b--\r\n", "{\"a\":NaN}", "[[[[[[[[[[]]]]]]]]]]", "{\"v\":{\"v\":1}}", "<x/>", "a: 1\nb: [", strings.Repeat("[", 2000)}
+		"--b\r\nContent-Disposition: form-data; name=\"zz\"\r\nContent-Type: application/x-yaml\r\n\r\na: [\r\n--b--\r\n", "{\"a\":NaN}", "[[[[[[[[[[]]]]]]]]]]", "{\"v\":{\"v\":1}}", "<x/>", "a: 1\nb: [", strings.Repeat("[", 2000),
+		"1: x\ntrue: y\n", "a:\n  2: z\n  ~: w\n", "- 1\n- {3: 4}\n", "? [1, 2]\n: v\n"}
 	cts := []string{"", "application/json", "application/json; charset=utf-8", "text/plain", "application/x-www-form-urlencoded", "multipart/form-data; boundary=b", "multipart/form-data",
 		"application/octet-stream", ";", "a/b/c", "application/problem+json", "APPLICATION/JSON", "text/csv", "application/zip", "application/x-yaml", "application/json;;", "application/json; charset"}
 	for i := 0; i < 8; i++ {
